@@ -26,6 +26,9 @@ pub enum P {
     /// ibc-hooks accounts of the configuration after `UpdateConfig` (channel-9, staker n2, collector n1)
     HookStaker2,
     HookCollector2,
+    /// ibc-hooks accounts of the original staker / collector through the *new* channel (channel-9)
+    HookStaker3,
+    HookCollector3,
 }
 pub fn who_addr(w: &Who, p: &P) -> String {
     match p {
@@ -41,6 +44,8 @@ pub fn who_addr(w: &Who, p: &P) -> String {
         P::Treasury => w.treasury.clone(),
         P::HookStaker2 => crate::addr::hook_sender("channel-9", &w.n2, &w.pp),
         P::HookCollector2 => crate::addr::hook_sender("channel-9", &w.n1, &w.pp),
+        P::HookStaker3 => crate::addr::hook_sender("channel-9", &w.staker, &w.pp),
+        P::HookCollector3 => crate::addr::hook_sender("channel-9", &w.collector, &w.pp),
     }
 }
 pub fn all_principals() -> Vec<P> {
@@ -89,6 +94,8 @@ pub enum Op {
     AcceptOwnership { sender: P },
     RevokeOwnership { sender: P },
     UpdateConfig { sender: P, sections: u8 },
+    /// admin update of the fee section only: new symbolic rate, treasury switched on / off
+    SetTreasury { on: bool },
 }
 
 impl Op {
@@ -352,6 +359,11 @@ pub fn run(b: &mut Built, op: &Op, pfx: &str, env: Envelope) -> StepOut {
             let s = who_addr(&who, sender);
             let msg = crate::cfgops::update_msg(&who, *sections, &mut |n| input(n, false));
             b.chain.execute(&s, &[], msg)
+        }
+        Op::SetTreasury { on } => {
+            let rate = input("ucfee", false);
+            let fee = staking::types::UnsafeProtocolFeeConfig { dao_treasury_fee: rate, treasury_address: if *on { Some(who.treasury.clone()) } else { None } };
+            b.chain.execute(&who.admin.clone(), &[], ExecuteMsg::UpdateConfig { native_chain_config: None, protocol_chain_config: None, protocol_fee_config: Some(fee), monitors: None, batch_period: None })
         }
     };
     let post = scen::snap(&b.chain);
@@ -1142,6 +1154,13 @@ pub fn post_op(cx: &Ctx, b: &Built, op: &Op, s: &StepOut) {
             }
         }
         Op::Donate { .. } | Op::UnstakeMinted { .. } => {}
+        Op::SetTreasury { on } => {
+            if s.tx.is_ok() {
+                claim(f, "C14:fee section update switches the treasury as requested", post.cfg.protocol_fee_config.treasury_address.is_some() == *on);
+                prove(f, "C14:fee rate replaced by the supplied value", t::eq(&t::ut(post.cfg.protocol_fee_config.dao_treasury_fee), &input("ucfee")));
+                prove_same(f, "C11:a fee configuration change leaves the accrued fee balance and the totals alone", &[(&post.fees, &pre.fees), (&post.n, &pre.n), (&post.l, &pre.l), (&post.rewards, &pre.rewards)]);
+            }
+        }
     }
     // C08 "any other caller gets an error and nothing changes"
     if !s.tx.is_ok() {
